@@ -34,6 +34,10 @@ type (
 		height     uint32
 		lastHash   crypto.Uint256
 		validators []dbft.PublicKey
+		// newBlock is set when a block is accepted: the consensus instance has
+		// to be reinitialized for the next height; blockTime is when it happened.
+		newBlock  bool
+		blockTime uint64
 	}
 )
 
@@ -94,6 +98,13 @@ func (n *simNode) Run(ctx context.Context) {
 			n.d.OnTimeout(n.d.Timer.Height(), n.d.Timer.View())
 		case msg := <-n.messages:
 			n.d.OnReceive(msg)
+		}
+
+		// dBFT stops at the accepted block, it's the application's duty to start
+		// the next height once the block is persisted.
+		if n.newBlock {
+			n.newBlock = false
+			n.d.Reset(n.blockTime)
 		}
 	}
 }
@@ -187,6 +198,8 @@ func (n *simNode) ProcessBlock(b dbft.Block[crypto.Uint256]) error {
 
 	n.height = b.Index()
 	n.lastHash = b.Hash()
+	n.newBlock = true
+	n.blockTime = uint64(time.Now().UnixNano())
 	return nil
 }
 
